@@ -126,6 +126,21 @@ Ans(name, i) ==
              IN  [nv |-> 1, sid |-> s.id, price |-> RateAt(s, i.sec), dem |-> s.demand]
         ELSE NoAnswer(Cardinality(V))
 
+\* the two public lookups, and the price vector: entry j is the lookup at start + j * period
+Price(name, i) == Ans(name, i).price                      \* get_tariff          (-1: no price)
+DemandRate(name, i) == Ans(name, i).dem                   \* get_demand_charge
+GetTariffs(name, start, n, period) ==                     \* get_tariffs, Interface.get_prices
+    [j \in 1..n |-> Price(name, AddMinutes(start, (j - 1) * period))]
+
+(* Costs of a power profile ws (kW per period) under prices ps (1e-5 $/kWh):  *)
+(*   energy cost   = sum_j ps[j] * ws[j] * period/60   = SumProduct * period / 60   [1e-5 $]   *)
+(*   demand charge = demand rate at the start * max_j ws[j]                         [1e-5 $]   *)
+(* (the factor period/60 is applied by the reader of the emitted case: the product  *)
+(* would leave TLC's 32-bit integers for day-long periods)                          *)
+SumProduct(ps, ws) == FoldLeft(LAMBDA acc, j : acc + ps[j] * ws[j], 0, [j \in 1..Len(ps) |-> j])
+MaxOf(ws) == FoldLeft(LAMBDA acc, j : IF ws[j] > acc THEN ws[j] ELSE acc, 0, [j \in 1..Len(ws) |-> j])
+DemandCharge(rate, ws) == rate * MaxOf(ws)
+
 -----------------------------------------------------------------------------
 (* The walk.                                                                *)
 Breakpoints(name) == UNION {{Tariffs[name][i].bps[j].at : j \in DOMAIN Tariffs[name][i].bps} : i \in DOMAIN Tariffs[name]}
@@ -313,13 +328,21 @@ VecAligned ==
         /\ now = AddMinutes(scn.start, k * scn.period)
         /\ k > 0 => vec[k] = Ans(tf, AddMinutes(scn.start, (k - 1) * scn.period))
 VecAlignedAtEnd ==
-    (mode = "vec" /\ done) => \A j \in 1..scn.n : vec[j] = Ans(tf, AddMinutes(scn.start, (j - 1) * scn.period))
+    (mode = "vec" /\ done) =>
+        /\ \A j \in 1..scn.n : vec[j] = Ans(tf, AddMinutes(scn.start, (j - 1) * scn.period))
+        /\ [j \in 1..scn.n |-> vec[j].price] = GetTariffs(tf, scn.start, scn.n, scn.period)
 
 \* energy cost and demand charge are the stated sums
 SumPricePower == FoldLeft(LAMBDA acc, j : acc + vec[j].price * Power(scn, j - 1), 0, [j \in 1..Len(vec) |-> j])
 MaxPower == FoldLeft(LAMBDA acc, j : Max2(acc, Power(scn, j - 1)), 0, [j \in 1..Len(vec) |-> j])
 CostIsSum == (mode = "vec" /\ AllPriced) => cost = SumPricePower
 PeakIsMax == mode = "vec" => peak = MaxPower /\ \A j \in 1..Len(vec) : Power(scn, j - 1) <= peak
+\* what Finish emits are the stated definitions applied to the price vector and the whole profile
+ChargesAtEnd ==
+    (mode = "vec" /\ done /\ AllPriced) =>
+        LET ws == [j \in 1..scn.n |-> Power(scn, j - 1)] IN
+        /\ VecCase.costnum = SumProduct(GetTariffs(tf, scn.start, scn.n, scn.period), ws)
+        /\ VecCase.dcharge = DemandCharge(DemandRate(tf, scn.start), ws)
 
 \* the clock only moves forward; consecutive days are civil successors with consecutive weekdays
 ClockMonotone == [][Before(now, now') \/ UNCHANGED now]_vars
